@@ -220,6 +220,39 @@ def naming_case(lang, content, way, mode):
         return None
 
 
+import contextlib
+import tempfile
+
+
+@contextlib.contextmanager
+def _other_tmpdir(root, enabled):
+    """the process's temp directory on ANOTHER file system than the scanned tree (TMPDIR on a tmpfs, the project on disk), when the
+    machine has one: where temporary files go is part of the environment"""
+    other = None
+    if enabled:
+        for cand in ("/dev/shm", "/run/user/%d" % os.getuid(), "/var/tmp"):
+            try:
+                if os.path.isdir(cand) and os.access(cand, os.W_OK) and os.stat(cand).st_dev != os.stat(root).st_dev:
+                    other = cand
+                    break
+            except OSError:
+                continue
+    if other is None:
+        yield
+        return
+    saved_env, saved_dir = os.environ.get("TMPDIR"), tempfile.tempdir
+    os.environ["TMPDIR"] = other
+    tempfile.tempdir = None
+    try:
+        yield
+    finally:
+        tempfile.tempdir = saved_dir
+        if saved_env is None:
+            os.environ.pop("TMPDIR", None)
+        else:
+            os.environ["TMPDIR"] = saved_env
+
+
 def _block(block, agg):
     kind = block[0]
     if kind == "soup":
@@ -273,7 +306,7 @@ def _block(block, agg):
         for combo in itertools.product(menu, repeat=len(langs)):
             files = {f"d{i}/f{i}.{canon.EXT[l]}": naming_content(l, c) for i, (l, c) in enumerate(zip(langs, combo))}
             case = {"fam": "mixed", "langs": list(langs), "contents": list(combo)}
-            with harness.temp_tree(files) as root, harness.cwd(root):
+            with harness.temp_tree(files) as root, harness.cwd(root), _other_tmpdir(root, sum(len(c) for c in combo) % 2 == 0):
                 code, text, exc = harness.run_cli_function(scan_command, Path("."))
                 ok = exc is None and code in (None, 0) and (root / ".codelimit_cache" / "codelimit.json").is_file()
             agg.case(case, True, "ok" if ok else "fails", sample=False)
